@@ -1081,9 +1081,11 @@ class CSSSerializer:
                 elif self.prefs.omitLeadingZero and -1 < value.value < 1:
                     v = self._strip_zeros('%f' % value.value)  # issue #27
                     val = v
-                    if value._sign == '-':
+                    # drop the leading zero only if there is one: '%f' may
+                    # have rounded e.g. 0.9999996 up to 1.0
+                    if v.startswith('-0.'):
                         val = v[0] + v[2:]
-                    else:
+                    elif v.startswith('0.'):
                         val = v[1:]
                 else:
                     val = self._strip_zeros('%f' % value.value)  # issue #27
